@@ -1727,6 +1727,55 @@ fn c11_mirror_status() {
 fn c11_swap_status() {
     sym_status_machine(Sym::Swap);
 }
+// @obl props=C05,C06 tier=thorough kind=harness-contract mem=12 est=600 timeout=3600
+// @bounded history lists of length <= 6
+// @fns hash_history_contains_hash_twice List::iter Iter::next List::append
+// @clause as c05_twice_leaf, for histories of length <= 6
+#[kani::proof]
+#[kani::unwind(9)]
+fn c05_twice_leaf_6() {
+    let n: usize = kani::any();
+    kani::assume(n <= 6);
+    let e: [u64; 6] = [kani::any(), kani::any(), kani::any(), kani::any(), kani::any(), kani::any()];
+    let h: u64 = kani::any();
+    let mut l: List<Zobrist> = List::new();
+    let mut occurrences = 0;
+    let mut k = 0;
+    while k < 6 {
+        if k < n {
+            l = l.append(zob(e[k]));
+            if e[k] == h {
+                occurrences += 1;
+            }
+        }
+        k += 1;
+    }
+    kani::cover!(occurrences == 2 && n == 6);
+    assert!(hash_history_contains_hash_twice(&l, &zob(h)) == (occurrences >= 2), "C05: 'already occurred twice' is decided by counting the recorded turn-start hashes");
+}
+// @obl props=C01,C07 tier=thorough kind=harness-contract mem=16 est=900 timeout=3600
+// @fns GameState::extend_with_pull_piece_actions
+// @clause as c01_gen_pull, but starting from `Vec::new()` (capacity 0, the way has_move calls it): exercises Vec growth instead of relying on A1
+#[kani::proof]
+#[kani::unwind(6)]
+fn c01_gen_pull_from_empty_vec() {
+    let side: bool = kani::any();
+    let pb = any_wf_board();
+    let st = any_status();
+    kani::assume(wf_status(&pb, side, 1, pp_of(st)));
+    let gs = play_state(&pb, side, 1, st);
+    let i = any_sq();
+    let d = any_direction();
+    let spec = match pp_of(st) {
+        Pp::Pull(psq, pt) => pull_complete(&pb, side, psq, pt, i, d),
+        _ => false,
+    };
+    kani::cover!(spec);
+    let mut v: Vec<Action> = Vec::new();
+    gs.extend_with_pull_piece_actions(&mut v, &pb);
+    assert!(v.len() <= 4 && all_moves(&v), "C01: at most four pull completions, all Moves");
+    assert!(has_move_in(&v, i, d) == spec, "C01: offered pull completions == legal pull completions");
+}
 // ===========================================================================
 // meta: the canary.  An `ensures` that is false on the real supported_pieces; it must FAIL.
 // If it ever passes, the pipeline is not checking anything and the whole run is UNDECIDED.
